@@ -173,6 +173,10 @@ func (list *tSkipList[K, V]) mkNode(key K, val V) (int, *tSkipNode[K, V]) {
 	for level < list.levels && p < list.p[level] {
 		level++
 	}
+	if level == 0 {
+		// the largest draws round to p == 1.0: every node is linked at least at the lowest level
+		level = 1
+	}
 
 	node := &tSkipNode[K, V]{
 		key:     key,
